@@ -17,6 +17,7 @@ LAYERS = ["eval"]
 
 def run(ctx, res):
     P = ctx.P
+    PI.valstack_writers(P, res)
     reach, inv = PI.run(ctx, res, LAYERS, floor_fns=470, floor_sites=310)
     # INT-ARITH: signed overflow asserts must not exist at all in reachable code unless reviewed in the C04 table
     n = 0
